@@ -213,6 +213,10 @@ func ttlGrid(r receiver, ttls []int) {
 			want = false
 		}
 		probe := fmt.Sprintf("probe-h%d", h)
+		if h%3 == 1 {
+			probe = "" // a message without payload is a message like any other
+			kit.Count("empty-payload-probe")
+		}
 		p.Deliver(crossed(r.kind, h, probe))
 		p.Deliver(crossed(r.kind, 1, "sentinel"))
 		kit.Quiesce()
